@@ -88,6 +88,8 @@ if __name__ == '__main__':
         prefix, offset, rest = '/tmp/wt3_', 4, rest[1:]
     if rest and rest[0] == '--round4':
         prefix, offset, rest = '/tmp/wt4_', 6, rest[1:]
+    if rest and rest[0] == '--round13':
+        prefix, offset, rest = '/tmp/wt13_', 24, rest[1:]
     if rest and rest[0] == '--round12':
         prefix, offset, rest = '/tmp/wt12_', 22, rest[1:]
     if rest and rest[0] == '--round11':
